@@ -35,6 +35,27 @@ func verifEv(ev string, s string) {
 	VerifTrace(ev, map[string]any{"s": s})
 }
 
+// verifVar reports a variable event: basic values by their repr, composites
+// (shared by reference, mutated without passing through a scope) as "ref".
+func verifVar(ev string, name string, v value) {
+	if VerifTrace == nil {
+		return
+	}
+	VerifTrace(ev, map[string]any{"s": name, "v": verifBasic(v)})
+}
+
+func verifBasic(v value) string {
+	switch t := v.(type) {
+	case *numVal, *stringVal, *boolVal:
+		return t.Repr()
+	case *anyVal:
+		if b := verifBasic(t.V); b != "ref" {
+			return "any:" + b
+		}
+	}
+	return "ref"
+}
+
 // VerifGlobals returns repr and dynamic type description of all globals.
 func (e *Evaluator) VerifGlobals() map[string]string {
 	out := map[string]string{}
